@@ -1563,3 +1563,24 @@ func specListed(ids []*ast.Identifier, name string) bool {
 //@   props X00 C04
 //@   panics allowed
 //@   claim[C04] nilifc[ellipses.param.Type
+
+// C12, `*p`: the indirection panics at run time when p is nil; the instruction
+// that performs it is the next one emitted, and the position of the expression
+// is recorded for it (so the *PanicError names the place).
+func specNextLine(fb *functionBuilder) int {
+	return fb.fn.InstructionInfo[runtime.Addr(len(fb.fn.Body))].Position.Line
+}
+
+//@ clause (*emitter).emitUnaryOp/case OperatorPointer
+//@   props X00 C12
+//@   opt puremethods Kind Elem
+//@   opt stable functionBuilder github.com/open2b/scriggo/internal/runtime.Function
+//@   panics allowed
+//@   callassert[C12] em.changeRegister 0 expr.Pos() != nil ==> specNextLine(em.fb) == expr.Pos().Line
+//@   callassert[C12] em.changeRegister 1 expr.Pos() != nil ==> specNextLine(em.fb) == expr.Pos().Line
+
+//@ func (*functionBuilder).addPosAndPath
+//@   props X00 C12
+//@   requires fb != nil && fb.fn != nil
+//@   ensures[C12] pos != nil ==> specNextLine(fb) == pos.Line
+//@   ensures len(fb.fn.Body) == old(len(fb.fn.Body))
